@@ -8,6 +8,7 @@ variable {F : Type} [Scalar F]
 /-- `reset` rebuilds exactly the state `new` builds (state equality: any history, any values) -/
 theorem reset_eq (s : EfficiencyRatio F) (h : WF s) : s.reset = some (fresh s.period) := by
   unfold reset
+  try simp only [gen_helper]
   simp [fill_all _ _ _ h.size, fresh]
 
 end TaRs.Gen.EfficiencyRatio
